@@ -1,0 +1,20 @@
+//go:build verif
+
+package generator
+
+import "net/http"
+
+// VerifHandler builds the ServeMux the edit server listens with (the same
+// AppServer.Handler the "edit" command uses) for this application, without
+// opening a browser or a socket. With a non-empty savePath the server runs in
+// autosave mode and writes the graph to that file after every edit, as
+// `polyform <file> edit --autosave` does. Only compiled with -tags verif.
+func (a *App) VerifHandler(savePath string) (http.Handler, error) {
+	a.initGraphInstance()
+	as := &AppServer{
+		app:        a,
+		autosave:   savePath != "",
+		configPath: savePath,
+	}
+	return as.Handler()
+}
